@@ -165,6 +165,9 @@ type Exec struct {
 	Infeasibles int
 	Funcs       map[string]bool
 	axiomsAdded map[string]bool
+	opaqueInst  []opaqueInst    // applications of memoised opaque functions (curlTrits)
+	opaquePairs map[string]bool // instance pairs whose congruence axiom has been added
+	opaqueAx    []*Term         // congruence axioms found so far (valid globally)
 }
 
 type ModelFn func(ex *Exec, s *State, call *ssa.CallCommon, args []Value) (Value, *Fork, error)
@@ -186,7 +189,7 @@ func NewExec(prog *ssa.Program, ctx *Ctx, solver *Solver) *Exec {
 		globals: map[*ssa.Global]int{}, initDone: map[*ssa.Package]bool{}, suspect: map[*ssa.Package]string{},
 		Models: map[string]ModelFn{}, fninfo: map[*ssa.Function]*fnInfo{}, pdoms: map[*ssa.Function]map[*ssa.BasicBlock]*ssa.BasicBlock{}, lazyCache: map[*ssa.BasicBlock]bool{},
 		MaxSteps: 50_000_000, MaxVisits: 200_000, MaxPaths: 200_000,
-		ReplaceByGo: map[string]string{}, axiomsAdded: map[string]bool{}, globalSet: map[int]bool{}, asmCache: map[*ssa.Function]*asmFunc{}, tagSeen: map[string]bool{}, opaqueMemo: map[string][]*Term{},
+		ReplaceByGo: map[string]string{}, axiomsAdded: map[string]bool{}, globalSet: map[int]bool{}, asmCache: map[*ssa.Function]*asmFunc{}, tagSeen: map[string]bool{}, opaqueMemo: map[string][]*Term{}, opaquePairs: map[string]bool{},
 	}
 	ex.nextObj = 1
 	ex.Boot = &State{Heap: map[int]*Object{}, SymCount: map[string]int{}, Lenient: true}
@@ -719,6 +722,8 @@ func (ex *Exec) finish(s *State) {
 
 // ---------------------------------------------------------------- feasibility
 
+var debugQueries = os.Getenv("SYMGO_DEBUG") == "4"
+
 func (ex *Exec) checkSat(s *State, extra ...*Term) Result {
 	as := make([]*Term, 0, len(s.PC)+len(extra))
 	as = append(as, s.PC...)
@@ -730,6 +735,21 @@ func (ex *Exec) checkSat(s *State, extra ...*Term) Result {
 	}
 	t0 := time.Now()
 	r, _ := ex.Solver.Check(as, nil)
+	if debugQueries {
+		what := ""
+		if len(extra) > 0 {
+			what = extra[0].String()
+			if len(what) > 160 {
+				what = what[:160]
+			}
+		}
+		fn := ""
+		if len(s.Stack) == 0 {
+		} else if fr := s.top(); fr != nil && fr.Fn != nil {
+			fn = fr.Fn.String()
+		}
+		fmt.Fprintf(os.Stderr, "query %s in %s at %s pc=%d: %s\n", r, fn, ex.posOf(s), len(s.PC), what)
+	}
 	if d := time.Since(t0); d > 300*time.Millisecond && os.Getenv("SYMGO_DEBUG") != "" {
 		fmt.Fprintf(os.Stderr, "slow query %v (%s) at %s pc=%d\n", d, r, ex.posOf(s), len(s.PC))
 	}
